@@ -361,7 +361,8 @@ class C01(Check):
             set_v = phys
         var.update(set_v)
         got = float(np.ravel(var.value)[0])
-        out.close('variable_reads_back', got, set_v, rtol=1e-12, atol=1e-12, vtype=vt, scaled=op['scaled'], step=step)
+        out.close('variable_reads_back', got, set_v, rtol=1e-12, atol=1e-12 * (max(1.0, Lsc) if vt == 'thickness' else 1.0),
+                  vtype=vt, scaled=op['scaled'], step=step)
         # the edited physical quantity is read back from the library (it is the one thing allowed to change) ...
         snap = observe(o)
         if vt == 'radius':
